@@ -89,6 +89,11 @@ IsDeclOfType(env, d, n) ==
 (* the emitted prelude, recognised token for token by the harness (event field preludeOk) *)
 IsSelSetRef(env, sc, t) == t.k = "ref" /\ Len(t.args) = 3 /\ t.path[Len(t.path)] = "__SelectionSet"
 IsOmitTypename(t) == t.k = "ref" /\ t.path = <<"Omit">> /\ Len(t.args) = 2 /\ t.args[2].k = "lit" /\ t.args[2].s = "__typename"
+(* Pick<X, "a" | "b"> (keys as string literal types; `never` picks nothing) *)
+IsPick(t) == t.k = "ref" /\ t.path = <<"Pick">> /\ Len(t.args) = 2
+PickKeys(k) == CASE k.k = "lit" -> {k.s}
+                 [] k.k = "union" -> {k.ts[i].s : i \in {j \in DOMAIN k.ts : k.ts[j].k = "lit"}}
+                 [] OTHER -> {}
 
 (* keys of an object type after resolving references (only what the emitted subset needs) *)
 RECURSIVE KeysOfType(_, _, _, _)
@@ -96,6 +101,7 @@ KeysOfType(env, sc, t, fuel) ==
   IF fuel = 0 THEN {}
   ELSE CASE t.k = "obj" -> {t.fs[i].key : i \in DOMAIN t.fs}
          [] t.k = "ref" -> IF IsOmitTypename(t) THEN KeysOfType(env, sc, t.args[1], fuel - 1) \ {"__typename"}
+                           ELSE IF IsPick(t) THEN KeysOfType(env, sc, t.args[1], fuel - 1) \cap PickKeys(t.args[2])
                            ELSE LET r == Lookup(env, sc, t.path) IN
                                 IF r.k = "decl" THEN KeysOfType(env, ScopeOfDecl(r), r.stmt.t, fuel - 1) ELSE {}
          [] t.k = "inter" -> UNION {KeysOfType(env, sc, t.ts[i], fuel - 1) : i \in DOMAIN t.ts}
@@ -149,6 +155,15 @@ MemberX(v, t, env, sc, fuel, ex) ==
             IN IF r.k = "decl" /\ r.stmt.t.k = "obj"
                THEN LET o == r.stmt.t dsc == ScopeOfDecl(r) IN
                     v.k = "rec" /\ \A i \in DOMAIN o.fs : o.fs[i].key = "__typename" \/
+                        (LET y == Read(v, o.fs[i].key) IN (o.fs[i].opt /\ y.k = "undef") \/ MemberX(y, o.fs[i].t, env, dsc, fuel - 1, Nested(ex)))
+               ELSE TRUE
+         ELSE IF IsPick(t) THEN
+            LET x == t.args[1]
+                r == IF x.k = "ref" THEN Lookup(env, sc, x.path) ELSE Missing("")
+                keys == PickKeys(t.args[2])
+            IN IF r.k = "decl" /\ r.stmt.t.k = "obj"
+               THEN LET o == r.stmt.t dsc == ScopeOfDecl(r) IN
+                    v.k = "rec" /\ \A i \in DOMAIN o.fs : o.fs[i].key \notin keys \/
                         (LET y == Read(v, o.fs[i].key) IN (o.fs[i].opt /\ y.k = "undef") \/ MemberX(y, o.fs[i].t, env, dsc, fuel - 1, Nested(ex)))
                ELSE TRUE
          ELSE LET r == Lookup(env, sc, t.path) IN
